@@ -1,19 +1,23 @@
-/- Line-protocol driver for C06: runs Model/InputField (class IR, triggers), Spec/CoerceInput
-   (coerce_input_value / value_from_ast / default_value) and Spec/PydInput (construct, readback, dump)
-   on the harness's inputs.  Driver glue, no theorems.  The decoders of definitions/literals are the
+/- Line-protocol driver for C06: runs Model/InputField + Model/InputSource (class IR and triggers for a
+   schema built from SDL or obtained by introspection: `"mode"`), Model/InputDeps (`module`: class
+   selection and enum import of `generate(types_to_include)`), Spec/CoerceInput (coerce_input_value /
+   value_from_ast / default_value) and Spec/PydInput (construct, readback, dump; on the module of the
+   given source and selection) on the harness's inputs.  Driver glue, no theorems.  The decoders of definitions/literals are the
    same wire format as Driver/C19.lean (`defs`). -/
 import AriadneModel.Driver.Wire
 import AriadneModel.Model.InputField
 import AriadneModel.Spec.CoerceInput
 import AriadneModel.Spec.PydInput
 import AriadneModel.Model.InputRel
+import AriadneModel.Model.InputDeps
+import AriadneModel.Model.InputWf
 
 open Lean (Json)
 open Ariadne Ariadne.Wire
 
 namespace C06Driver
-open Ariadne.InputGen (TypeRef Lit PyExpr InputField TypeDef)
-open Ariadne.InputField Ariadne.CoerceInput Ariadne.PydInput
+open Ariadne.InputGen (TypeRef Lit PyExpr InputField TypeDef Mode)
+open Ariadne.InputField Ariadne.CoerceInput Ariadne.PydInput Ariadne.InputSource Ariadne.InputDeps
 
 def getList (j : Json) (k : String) : Except String (List Json) := do
   let a ← (← j.getObjVal? k).getArr?
@@ -54,7 +58,29 @@ def decField (j : Json) : Except String InputField := do
     | .ok .null => pure none
     | .ok v => do pure (some (← decLit v))
     | .error _ => pure none
-  pure ⟨← fieldStr j "name", ← decTypeRef (← field j "type"), d, false⟩
+  let dep := match j.getObjVal? "deprecated" with
+    | .ok (.bool b) => b
+    | _ => false
+  pure ⟨← fieldStr j "name", ← decTypeRef (← field j "type"), d, dep⟩
+
+/-- `"mode"`: absent / `"sdl"` = schema built from SDL; `"intro"` = obtained by introspection
+    (`"ivd"`: did the query ask for deprecated input values; default true) -/
+def decMode (j : Json) : Except String Mode := do
+  match j.getObjVal? "mode" with
+  | .ok (.str "intro") =>
+    let ivd := match j.getObjVal? "ivd" with
+      | .ok (.bool b) => b
+      | _ => true
+    pure (.intro ivd)
+  | _ => pure .sdl
+
+/-- `"roots"`: absent / null = `generate()`; a list = `generate(types_to_include=…)` -/
+def decRoots (j : Json) : Except String (Option (List String)) := do
+  match j.getObjVal? "roots" with
+  | .ok (.arr a) => do
+    let xs ← a.toList.mapM (·.getStr?)
+    pure (some xs)
+  | _ => pure none
 
 def decDef (j : Json) : Except String TypeDef := do
   let k ← fieldStr j "kind"
@@ -112,11 +138,13 @@ def encDecl : Option FieldDecl → Json
 def encClass (c : ClassDecl) : Json :=
   Json.mkObj [("name", c.name), ("fields", Json.arr (c.fields.map encDecl).toArray)]
 
-def encTriggers (cfg : Cfg) (defs : List TypeDef) : Json :=
+def encTriggers (m : Mode) (cfg : Cfg) (defs : List TypeDef) : Json :=
   Json.arr (defs.filterMap fun
-    | .input n fs => some (Json.mkObj [("name", n), ("trigNameDefect", trigNameDefect cfg.snake fs),
-        ("fields", Json.arr (fs.map fun f => Json.mkObj ((("name", Json.str f.name) : String × Json) ::
-          (fieldTriggers cfg defs f).map fun (k, b) => (k, Json.bool b))).toArray)])
+    | .input n fs =>
+      let vis := InputGen.visibleFields m fs
+      some (Json.mkObj [("name", n), ("trigNameDefect", trigNameDefect cfg.snake vis),
+        ("fields", Json.arr (vis.map fun f => Json.mkObj ((("name", Json.str f.name) : String × Json) ::
+          (fieldTriggersSrc m cfg defs f).map fun (k, b) => (k, Json.bool b))).toArray)])
     | _ => none).toArray
 
 def encExcept (r : Except CErr J) : Json :=
@@ -188,9 +216,24 @@ def handle (j : Json) : Except String Json := do
   | "classes" =>
     let cfg ← decCfg (← field j "cfg")
     let defs ← (← getList j "defs").mapM decDef
-    pure (Json.mkObj [("classes", Json.arr ((classes cfg defs).map encClass).toArray),
-      ("triggers", encTriggers cfg defs), ("supported", supported cfg defs),
-      ("related", InputRel.related (kindOf cfg defs) (mkSchema defs) (mkEnv cfg defs (fun _ _ => false) Lax.none))])
+    let m ← decMode j
+    pure (Json.mkObj [("classes", Json.arr ((classesSrc m cfg defs).map encClass).toArray),
+      ("triggers", encTriggers m cfg defs), ("supported", supportedSrc m cfg defs),
+      -- `WF_06`: the class for which `Proved_06` is a theorem (`C06.proved_06_of_wf`), evaluated on what the generator sees
+      ("wf", InputWf.wf06 cfg (viewOf m defs)),
+      ("related", InputRel.related (kindOf cfg defs) (mkSchema (visibleDefs m defs)) (mkEnvSrc m cfg defs (fun _ _ => false) Lax.none))])
+  | "module" =>
+    -- `InputTypesGenerator(schema).generate(types_to_include=roots)`: emitted class names, `from .enums import` list
+    let cfg ← decCfg (← field j "cfg")
+    let defs ← (← getList j "defs").mapM decDef
+    let m ← decMode j
+    let roots ← decRoots j
+    match generate m cfg defs roots with
+    | none => pure (Json.mkObj [("fuel", true)])
+    | some mod =>
+      pure (Json.mkObj [("names", Json.arr (mod.classes.map fun c => Json.str c.name).toArray),
+        ("enumImport", Json.arr (mod.enumImport.map Json.str).toArray),
+        ("parsingError", mod.classes.any fun c => c.fields.any Option.isNone)])
   | "coerce" =>
     let defs ← (← getList j "defs").mapM decDef
     let t ← decTypeRef (← field j "type")
@@ -213,7 +256,9 @@ def handle (j : Json) : Except String Json := do
     let defs ← (← getList j "defs").mapM decDef
     let lax ← decLax (← field j "lax")
     let acc ← decAcc j
-    let env := mkEnv cfg defs acc lax
+    let m ← decMode j
+    let roots ← decRoots j
+    let env := mkEnvSrc m cfg (emittedDefs m cfg defs roots) acc lax
     let cls ← fieldStr j "cls"
     let vals ← (← getList j "values").mapM dec
     pure (Json.arr (vals.map fun v =>
@@ -224,8 +269,10 @@ def handle (j : Json) : Except String Json := do
     -- for every field of `cls` with a schema default: does the evaluated Python default match the coerced schema default?
     let cfg ← decCfg (← field j "cfg")
     let defs ← (← getList j "defs").mapM decDef
-    let env := mkEnv cfg defs (fun _ _ => false) Lax.none
-    let s := mkSchema defs
+    let m ← decMode j
+    let roots ← decRoots j
+    let env := mkEnvSrc m cfg (emittedDefs m cfg defs roots) (fun _ _ => false) Lax.none
+    let s := mkSchema (visibleDefs m defs)
     let cls ← fieldStr j "cls"
     let out := readbackOf env s cls
     pure (Json.mkObj [("broken", env.broken), ("fields", Json.arr out.toArray)])
